@@ -253,7 +253,16 @@ NAME_POOLS = {
 def gen_rep(rng, net, names=None, states=None, shuffle=True):
     n = net["n"]
     style = names or rng.choice(["str", "str", "int", "tuple", "mixed", "substr", "kw", "bigname"])
-    if style == "bigname":
+    if n > 10 and style not in ("bigname",):
+        # larger networks: generated names (with substring families x1 / x10 / x11 ...)
+        style = rng.choice(["str", "int", "tuple"]) if style not in ("str", "int", "tuple") else style
+        if style == "str":
+            nm = ["x%d" % i for i in rng.sample(range(1, 3 * n), n)]
+        elif style == "int":
+            nm = rng.sample(range(0, n + 5), n)
+        else:
+            nm = [("v", i) for i in rng.sample(range(n + 5), n)]
+    elif style == "bigname":
         nm = rng.sample(range(257, 5000), n)
     elif style in NAME_POOLS:
         nm = list(NAME_POOLS[style])
